@@ -153,6 +153,7 @@ Plan generate(uint64_t seed, const std::string& focus) {
         bk.ack_err_p = r.pick<double>({0.0, 0.1, 0.3});
         bk.ack_props_p = r.pick<double>({0.0, 0.3, 0.7});
     }
+    if (quirky && (focus == "C01" || focus == "C14" || r.chance(0.2))) bk.dup_ack_p = r.pick<double>({0.0, 0.1, 0.3});
     if (quirky) { bk.session_loss_p = r.pick<double>({0.0, 0.2, 0.5, 1.0}); bk.caps_change = r.chance(0.3); }
     if (focus == "C13") bk.session_loss_p = r.pick<double>({0.2, 0.5, 0.8, 1.0});
     if (faulty && r.chance(0.3)) bk.session_loss_p = r.pick<double>({0.1, 0.3});
